@@ -130,7 +130,7 @@ func (H) Execute(scAny any, cfg simrt.Config, st *core.Stats) (*simrt.Outcome, *
 			simrt.Yield()
 			h = core.HashInts(h, int(o.K[0])+256*int(o.K[len(o.K)-1]), o.A, o.B, o.M%len(ms))
 			m := ms[o.M%len(ms)]
-			k, val := o.A+1, o.B+101 // never the zero value, so a wrong zero result shows
+			k, val := o.A, o.B+100*(sc.UV%2) // zero keys (and, for even value universes, zero values) are in the universe
 			cat := o.K
 			switch o.K {
 			case "add":
@@ -211,7 +211,7 @@ func verify(sc *Scenario, m *live) string {
 	if got := m.bm.Len(); got != len(m.fwd) {
 		return fmt.Sprintf("len-mismatch: Len()=%d, %d pairs expected %v", got, len(m.fwd), m.fwd)
 	}
-	for a := 1; a <= sc.UK; a++ {
+	for a := 0; a < sc.UK; a++ {
 		want, ok := m.fwd[a]
 		got, gok := m.bm.GetForward(a)
 		if gok != ok || got != want {
@@ -221,7 +221,7 @@ func verify(sc *Scenario, m *live) string {
 			return fmt.Sprintf("forward-mismatch: ContainsForward(%d)=%v want %v", a, c, ok)
 		}
 	}
-	for b := 101; b <= 100+sc.UV; b++ {
+	for b := 100 * (sc.UV % 2); b < 100*(sc.UV%2)+sc.UV; b++ {
 		want, ok := m.rev[b]
 		got, gok := m.bm.GetReverse(b)
 		if gok != ok || got != want {
